@@ -286,8 +286,10 @@ CHECKS["C15"] = dict(
     design="§6 C15")
 
 CHECKS["C16"] = dict(
-    technique="Coq proofs over any commutative ring / any gradient function / any dimension and step count: the code's leapfrog arrangement = L kick-drift-kick steps, exact reversibility, shear decomposition with unit Jacobian determinant (mathcomp determinants), exact conservation of the modified energy for harmonic targets, Hastings = change of kinetic energy; exact-rational correspondence on Gaussian targets and oracle-gradient correspondence on transformed/phylogenetic targets",
-    text="19 theorems in prop/C16.v: C16_leapfrog_is_standard, C16_leapfrog_reversible (flip o leapfrog o flip o leapfrog = id for ANY grad), "
+    technique="Integrator arithmetic and statement order regenerated from integrator.py (ast translator T9) and proved to be the model; Coq proofs over any commutative ring / any gradient function / any dimension and step count: the code's leapfrog arrangement = L kick-drift-kick steps, exact reversibility, shear decomposition with unit Jacobian determinant (mathcomp determinants), exact conservation of the modified energy for harmonic targets, Hastings = change of kinetic energy; exact-rational correspondence on Gaussian targets and oracle-gradient correspondence on transformed/phylogenetic targets",
+    text="20 theorems in prop/C16.v: C16_integrator_source_is_model (the integrator assembled, in the statement order of the source, from the "
+         "arithmetic regenerated from LeapfrogIntegrator.__call__ by translator T9 is the model's leapfrog: any number type, mass "
+         "matrix, gradient, step count), C16_leapfrog_is_standard, C16_leapfrog_reversible (flip o leapfrog o flip o leapfrog = id for ANY grad), "
          "C16_leapfrog_shear_decomposition, C16_shear_jacobians_det_one / C16_shear_matrices_act_as_shears / C16_volume_preserving_dim1, "
          "C16_volume_preserving_partial (chain rule over the composition left informal for nonlinear gradients), "
          "C16_energy_error_harmonic (O(eps^2) for all L on quadratic potentials), C16_energy_error_partial (general targets: not proved), "
